@@ -46,6 +46,25 @@ CHECKS = {
         "Exponential backtracking is termination; cases where the model exceeds its own step bound are reported as 'both expensive', not as hangs.",
    technique="Coq proof (well-founded measure on remaining text) + exhaustive small-scope enumeration of nullable loop nests",
    ref="DESIGN.md 7 C10"),
+ "C11": dict(
+   text="Theorems (closed): C11_eval_binop_table - for every operator and ALL operand values whose types form a row of the documented table (typed in row by row in Spec/ProcSpec.v) the evaluator "
+        "returns the table's typed operation on the coerced operands with the row's result type, or the division-by-zero panic for / % with zero divisor and nothing else; C11_outside_table; "
+        "C11_unops; C11_atoi_itoa (decimal rendering/parsing inverse on int64). Tie: exhaustive operators x boundary values of the three types through a transform and a predicate against an "
+        "independent Python transcription of the table; precedence/associativity: expression trees to depth 4 in minimal and full parenthesisation must parse to the same tree.",
+   note="The precedence clause is decided on the implementation by the tree round trip; the theorem about the Pratt parser model is part of the front-end work (partial until then). The table rows "
+        "'_number_ op number' are read as 'string op number' (what the checker accepts). Known finding K23 (division by zero). Repaired: 8e72253 (number ==/!=), 68ede24 (bool comparisons).",
+   technique="Coq proof (case analysis on operator x operand types, values universally quantified) + exhaustive boundary-value differential against an independent table",
+   ref="DESIGN.md 7 C11"),
+ "C12": dict(
+   text="Theorems (closed): C12_check_expr_iff / C12_check_expr_type - the checker's answer on expressions is the declarative typing over the documented table (accept iff well typed, with that "
+        "type); C12_check_stmts_iff - the checker accepts a statement list exactly when the declarative rules do (if-condition boolean, predicate returns boolean, transform returns string or "
+        "number, break/continue only inside loop incl. nested loops) and leaves the same type environment; C12_check_sound - a well-typed expression in an agreeing environment never meets an "
+        "undefined operation (only division by zero can fail). Tie: every (operator,type,type) cell accept/reject against the Python table; statement shapes in both contexts against the model; "
+        "accepted programs are executed.",
+   note="Soundness is stated for expressions; statement-level preservation holds when each variable keeps one type - otherwise the known finding K24 (flow-insensitive checker; includes variables "
+        "assigned on one branch only). Repaired: 8b55f78 (nested loop break).",
+   technique="Coq proof (induction on expressions/statements, mutual scheme; checker = declarative rules) + exhaustive cell enumeration",
+   ref="DESIGN.md 7 C12"),
  "C13": dict(
    text="Theorems (closed): C13_gen_relocate - laying a stored pattern out d pcs further = adjust() on every stored instruction (subroutine ids move with call targets, no aliasing); "
         "C13_transparent_inline / C13_transparent_call - {B}=s in place and a call of s mean B in the specification, so by C01 all forms give the same matches; C13_run_concat - a "
